@@ -153,16 +153,15 @@ impl EventData {
             None => return, // it's already take by selector
         };
 
-        // it's safe to remove the timer since we are running the timer_list in the same thread
+        // we may be running in any thread here, only the selector thread that runs the
+        // timer_list can remove the timer entry, so just mark it and let it expire
         #[cfg(feature = "io_timeout")]
-        self.timer.borrow_mut().take().map(|h| {
+        if let Some(h) = self.timer.borrow_mut().take() {
             unsafe {
                 // tell the timer function not to cancel the io
-                // it's not always true that you can really remove the timer entry
                 h.with_mut_data(|value| value.data.event_data = std::ptr::null_mut());
             }
-            h.remove()
-        });
+        }
 
         // schedule the coroutine
         get_scheduler().schedule(co);
@@ -209,16 +208,15 @@ impl EventData {
             None => return, // it's already take by selector
         };
 
-        // it's safe to remove the timer since we are running the timer_list in the same thread
+        // we may be running in any thread here, only the selector thread that runs the
+        // timer_list can remove the timer entry, so just mark it and let it expire
         #[cfg(feature = "io_timeout")]
-        self.timer.borrow_mut().take().map(|h| {
+        if let Some(h) = self.timer.borrow_mut().take() {
             unsafe {
                 // tell the timer function not to cancel the io
-                // it's not always true that you can really remove the timer entry
                 h.with_mut_data(|value| value.data.event_data = std::ptr::null_mut());
             }
-            h.remove()
-        });
+        }
 
         // run the coroutine
         run_coroutine(co);
